@@ -1640,6 +1640,7 @@ class Image:
             array=self.img,
             metadata=self.metadata(),
             kind=type(self).__name__,
+            original_dtype=str(np.dtype(self.original_dtype)),
         )
         if verbose:
             print(f"Image stored under {path}")
